@@ -129,7 +129,7 @@ def ref_glob(root, items, *, globstar=False, globstarlong=False, dot=False, ci=F
                     out[-1] = (p, 'nolist')
         return out
 
-    def walk(u, cur):
+    def walk(u, cur, certain=True):
         if LISTED is not None:
             LISTED.append(full(cur))          # the pattern goes through this directory
         kind, val = units[u]
@@ -140,16 +140,13 @@ def ref_glob(root, items, *, globstar=False, globstarlong=False, dot=False, ci=F
                 # everything below (files and directories), never hidden unless dot; the symlinked directories themselves are matched
                 if cur:
                     may.add(cur)                      # `a/**` also yields `a/`
-                    if not nodir:
+                    if not nodir and certain:
                         must.add(cur)
                 for d in dirs:
                     nolist = isinstance(d, tuple)
                     dn = d[0] if nolist else d
                     if dn != cur:
-                        if trail:
-                            emit(dn)
-                        else:
-                            emit(dn)
+                        emit(dn, certain)
                     if nolist:
                         continue
                     names = listdir(full(dn)) or []
@@ -160,7 +157,7 @@ def ref_glob(root, items, *, globstar=False, globstarlong=False, dot=False, ci=F
                         if trail and not isdir(p):
                             continue
                         if not isdir(p):
-                            emit(p)
+                            emit(p, certain)
             else:
                 for d in dirs:
                     if isinstance(d, tuple):
@@ -169,7 +166,7 @@ def ref_glob(root, items, *, globstar=False, globstarlong=False, dot=False, ci=F
                         dn = d[0]
                         # the next segment may match the link itself (it is an entry of its parent), handled from the parent directory
                         continue
-                    walk(u + 1, d)
+                    walk(u + 1, d, certain)
             return
         nodes = val
         if is_literal(nodes) and not ci:
@@ -186,16 +183,21 @@ def ref_glob(root, items, *, globstar=False, globstarlong=False, dot=False, ci=F
                 cand += [sp for sp in ('.', '..') if seg_matches(nodes, sp, dot, ci)]
             elif is_literal(nodes):
                 cand += [sp for sp in ('.', '..') if lit_text(nodes) == sp]
-        for nm in cand:
+        # a written dot inside a group (`@(..)`) reaching . / .. without SCANDOTDIR: the statement's "written literally" is arguable -> MAY only
+        maybe = []
+        if not is_literal(nodes) and not scandotdir:
+            maybe = [sp for sp in ('.', '..') if sp not in cand and seg_matches(nodes, sp, True, ci)]
+        for nm in cand + maybe:
+            sure = certain and nm not in maybe
             p = join(cur, nm)
             if last:
                 if trail:
                     if isdir(p):
-                        emit(p)
+                        emit(p, sure)
                 else:
-                    emit(p)
+                    emit(p, sure)
             elif isdir(p):
-                walk(u + 1, p)
+                walk(u + 1, p, sure)
 
     walk(0, '')
     return must, may
